@@ -127,6 +127,8 @@ def feeds(segs):
 # ------------------------------------------------------------------------------------ C01
 
 def gen_C01(rng, count, tier):
+    for g in gen_qt(rng, 40 if tier == "quick" else 400):
+        yield g
     for i in range(count):
         r = rng.random()
         if r < 0.55:
@@ -947,3 +949,39 @@ def gen_C20(rng, count, tier):
             if rng.random() < 0.3:
                 t += "?q=1"
             yield ("tls", "%s ssl:%s" % (mode, hx(t.encode())))
+
+
+# ------------------------------------------------------------------------------------ Qt sub-models
+
+def gen_qt(rng, count):
+    """differential validation of the Lean sub-models of Qt value classes (language `qt`)"""
+    # exhaustive: toLower on every byte, isSpace/trimmed around every byte
+    yield ("qt", " ".join("lower:%02x" % c for c in range(256)))
+    yield ("qt", " ".join("trim:%02x61%02x" % (c, c) for c in range(256)))
+    names = [b"A", b"a", b"B", b"b", b"\xc9", b"\xe9", b"Ab", b"aB", b"", b"Z", b"[", b"@", b"\xd7", b"\xf7", b"a\x00", b"\xde", b"\xfe"]
+    nums = [b"0", b"12", b" 12 ", b"+5", b"-5", b"- 5", b"9223372036854775807", b"9223372036854775808", b"-9223372036854775808", b"-9223372036854775809",
+            b"2147483647", b"2147483648", b"-2147483648", b"-2147483649", b"1 2", b"0x10", b"", b" ", b"12a", b"\t7\n", b"007", b"1e3", b"--1", b"+-1", b"12\x00", b"\x0b3\x0c"]
+    for i in range(count):
+        toks = []
+        for _ in range(30):
+            k = rng.randrange(14)
+            if k == 0: toks.append("toll:" + hx(pick(rng, nums)))
+            elif k == 1: toks.append("toint:" + hx(pick(rng, nums)))
+            elif k == 2: toks.append("num:%d" % (pick(rng, [0, 1, -1, 10, 255, 2**31, -2**31, 2**63 - 1, -2**63 + 1, 65536, 99, 100, 101])))
+            elif k == 3: toks.append("lt:%s:%s" % (hx(pick(rng, names)), hx(pick(rng, names))))
+            elif k == 4: toks.append("splitc:%s:%d" % (hx(pick(rng, [b"a,b", b",", b"", b"a", b",,a,", b"a b c", b" "])), pick(rng, [44, 32])))
+            elif k < 8: toks.append("mins:%s:%s" % (hx(pick(rng, names)), hx(pick(rng, [b"1", b"2", b"", b"x"]))))
+            elif k == 8: toks.append("mrep:%s:%s" % (hx(pick(rng, names)), hx(pick(rng, [b"r", b"s"]))))
+            elif k == 9: toks.append(pick(rng, ["mval:", "mvals:", "mcnt:", "mhas:"]) + hx(pick(rng, names)))
+            elif k == 10:
+                import base64 as _b
+                raw = bytes(rng.randrange(256) for _ in range(rng.randrange(0, 9)))
+                enc = _b.b64encode(raw)
+                if rng.random() < 0.5:
+                    enc = bytes(rng.choice(b"ABCxyz019+/=*- \n") for _ in range(rng.randrange(0, 12)))
+                toks.append("b64:" + hx(enc))
+            elif k == 11:
+                toks.append("pct:" + hx(bytes(rng.choice(b"%%%2eE4zZ/.a") for _ in range(rng.randrange(0, 8)))))
+            else:
+                toks.append("clean:" + hx(bytes(rng.choice(b"//..aab") for _ in range(rng.randrange(0, 9)))))
+        yield ("qt", " ".join(toks))
